@@ -38,7 +38,9 @@ NSHARDS = {'quick': 16, 'thorough': 16}
 
 KINDS = ['builtin', 'builtin_called', 'user', 'user_called', 'dotted', 'module', 'coroutine', 'assert', 'noted', 'syntax',
          'group', 'chained']
-MSGS = {'empty': None, 'plain': 'some detail', 'colons': 'a: b: c', 'multi': 'line1\nline2', 'dots': 'pre ... post'}
+MSGS = {'empty': None, 'plain': 'some detail', 'colons': 'a: b: c', 'multi': 'line1\nline2', 'dots': 'pre ... post',
+        # an error relayed from elsewhere: the message quotes another traceback
+        'relayed': 'worker failed\nTraceback (most recent call last):\nValueError: inner'}
 POSITIONS = ['first', 'middle', 'last']
 WANTS = ['none', 'exact', 'stack', 'wrongmsg', 'wrongtype', 'nontb', 'ellipsis', 'exact_noraise', 'suffixtype']
 FLAGSETS = list(itertools.product([0, 1], repeat=3))     # IED, ELLIPSIS, IGNORE_WANT
